@@ -1212,12 +1212,26 @@ type nexusPool struct {
 	c     *nexus.Client
 	known map[string]bool
 	nstat int
+	rng   netip.Prefix
+}
+
+func (p *nexusPool) usable(v netip.Prefix) bool {
+	if !p.rng.IsValid() || v.Bits() != 32 || !p.rng.Contains(v.Addr()) {
+		return false
+	}
+	u := Units(p.rng, 32)
+	return len(u) >= 3 && v.Addr() != u[0].Addr() && v.Addr() != u[len(u)-1].Addr()
 }
 
 // AllocSpecific provisions sub statically on v the way an operator does: the subscriber record is written
 // with the address filled in (and, every other time, without a pool id: the pool is then implied by the
 // default). A careful operator does not provision an address somebody holds, nor a subscriber that has one.
 func (p *nexusPool) AllocSpecific(sub string, v netip.Prefix) error {
+	// (the record is written by the operator's tooling, which provisions usable addresses of the pool only:
+	// nothing in bng validates it, so an address outside the pool would be the operator's error, not bng's)
+	if !p.usable(v) {
+		return fmt.Errorf("not a usable address of the pool")
+	}
 	if _, ok := p.c.LookupSubscriberIP(sub); ok {
 		return fmt.Errorf("subscriber has an address")
 	}
@@ -1296,7 +1310,7 @@ func Nexus(cidr string) *Spec {
 			if err := c.Start(); err != nil {
 				return nil, err
 			}
-			return &nexusPool{c: c, known: map[string]bool{}}, nil
+			return &nexusPool{c: c, known: map[string]bool{}, rng: r}, nil
 		}}
 }
 
